@@ -29,7 +29,7 @@ RULE = (
     "other texts in between); non-trivial = text of >= 2 tokens; distinct = distinct texts"
 )
 ASSUMPTIONS = ["an invalid regular expression inside a pattern counts as a reported definition error, not as a well-formed text"]
-MUST_SEE = ["syntax_error_next_to_format_characters", "regex_unpaired_brackets", "regex_engine_limit_literals", "regex_inner_whitespace", 
+MUST_SEE = ["edge_whitespace_characters", "payloads_naming_unknown_class_read_before", "syntax_error_next_to_format_characters", "regex_unpaired_brackets", "regex_engine_limit_literals", "regex_inner_whitespace", 
     "xpath_accepted", "xpath_rejected", "pattern_accepted", "pattern_rejected", "mutations_still_valid", "whitespace_variants", "recompiles_cold",
     "recompiles_hot", "unknown_class", "non_node_class", "duplicate_capture", "var_before_capture", "var_inside_own_capture", "random_strings", "late_defined_class", "compile_after_rejected", "escaped_quote_regexes",
 ]
@@ -59,6 +59,21 @@ def run_shard(ctx):
     classes["ASTNode"] = ASTNode
     class_names = list(U.order)
     field_names = sorted({f.name for c in U.order for f in U.child_fields(c)})
+
+    # ---- (in half of the shards) payloads naming a class that does not exist were read - and refused - earlier in the process:
+    # a name met in data does not become a class that texts may name
+    if ctx.shard % 2 == 0:
+        for payload in (
+            {"__type": "NoSuchClass", "id": "c17a", "content_id": "c", "origin": {}},
+            {"__type": f"{P}Un", "id": "c17b", "content_id": "c", "origin": {}, "op": "-", "child": {"__type": "NoSuchClass", "id": "c17c", "content_id": "c", "origin": {}}},
+        ):
+            for C_ in (ASTNode, U.cls[f"{P}Un"], U.cls[f"{P}Leaf"]):
+                try:
+                    r_ = C_.as_obj(payload)
+                    r_.detach()
+                except Exception:  # noqa: BLE001
+                    pass
+        ctx.count("payloads_naming_unknown_class_read_before")
 
     # ---- fixed panel
     prng = random.Random("c17-panel")
@@ -374,6 +389,14 @@ def run_shard(ctx):
             for tail in (" @)", " -> )", " ]", " @v=)", ")) extra", " $"):
                 ctx.count("syntax_error_next_to_format_characters")
                 check_pattern(f"({P}Leaf {frag}{tail}", "reject", "format-characters-in-rejected-text")
+        # characters at the edges of the text that str.strip() takes for white space and the grammar may not: whatever the
+        # verdict, the three entry points give the same one (interior and regex positions as controls)
+        for ch in ("\x0b", "\xa0", "\x85", "\x1c", "\u2003", "\x0c", "\ufeff", "\x1f", "\u200b", "\t", "\r\n"):
+            for text in (ch + f"({P}Leaf @v -> a)", f"({P}Leaf @v -> a)" + ch, ch + f"({P}Leaf)" + ch, f"({P}Leaf{ch}@v -> a)", f'({P}Leaf @s="a{ch}b")'):
+                ctx.count("edge_whitespace_characters")
+                check_pattern(text, None, "edge-whitespace")
+            for text in (ch + f"//{P}Leaf", f"//{P}Leaf" + ch):
+                check_xpath(text, None, "edge-whitespace")
         # regex literals holding brackets that are not paired as text (escaped, or inside a character class)
         for rx in ("\\(", "^:-\\)$", "a[(]b", "^\\[x", "[)\\]]+", "\\)\\)\\("):
             ctx.count("regex_unpaired_brackets")
